@@ -309,6 +309,12 @@ func c19Flight(n int, answer string, prior string) { c19FlightOn(20, n, answer, 
 func c19FlightOn(storeTo, n int, answer string, prior string) {
 	ctx := context.Background()
 	run := newC19(storeTo, 2*time.Hour, 600*time.Second)
+	slowTail := prior == "slowtail"
+	if slowTail {
+		// the fetch of the very first tail header takes a while: the callers that did not start it have to wait for it
+		prior = ""
+		run.g.hDelay = 120 * time.Millisecond
+	}
 	if prior != "" {
 		// an earlier (sequential) head request with another outcome: its result must not leak into the next flight
 		run.a2 = prior
@@ -351,6 +357,9 @@ func c19FlightOn(storeTo, n int, answer string, prior string) {
 	}
 	if prior == "" {
 		prior = "-"
+	}
+	if slowTail {
+		prior = "slowtail"
 	}
 	emit("C19 kind=flight store=%d n=%d answer=%s prior=%s => reqs=%d results=%s", storeTo, n, answer, prior, nreq, strings.Join(results, ","))
 }
@@ -411,6 +420,7 @@ func runC19(tier string, r *rng) {
 		c19Flight(n, "softnopath:44", "")
 		c19FlightOn(0, n, "ok:59", "") // empty store: the callers meet on the initialisation request
 		c19FlightOn(0, n, "fail", "")
+		c19FlightOn(0, n, "ok:59", "slowtail")
 		c19HeadRace(20, 2*n)
 		c19HeadRaceLag(20, n, 2, 5)
 		c19HeadRaceLag(20, 0, 3, 6)
